@@ -40,9 +40,43 @@ func (g *docGen) literal(kind string) interface{} {
 	case "xsd:float":
 		return float64(g.seq%50) + 0.5
 	case "xsd:dateTime":
-		return fmt.Sprintf("2020-01-%02dT03:04:%02dZ", 1+g.seq%28, g.seq%60)
+		// RFC 3339 with whole seconds, UTC or a numeric offset (what the encoder writes back verbatim)
+		zone := []string{"Z", "Z", "+02:00", "-07:30"}[g.seq%4]
+		return fmt.Sprintf("%04d-%02d-%02dT%02d:%02d:%02d%s", 1990+g.seq%60, 1+g.seq%12, 1+g.seq%28, g.seq%24, (g.seq/3)%60, g.seq%60, zone)
 	case "xsd:duration":
-		return fmt.Sprintf("PT%dS", 1+g.seq%59)
+		// every shape of the canonical lexical form: optional sign, any subset (not empty) of the components, each
+		// within the range the encoder itself would write (a year is 8760 h, a month 720 h)
+		n := g.seq
+		parts := []struct {
+			on  bool
+			val int
+			suf string
+		}{
+			{n%2 == 0, 1 + n%40, "Y"}, {n%3 == 0, 1 + n%11, "M"}, {n%5 < 2, 1 + n%29, "D"},
+			{n%7 < 3, 1 + n%23, "H"}, {n%4 == 1, 1 + n%59, "M"}, {n%3 != 0, 1 + (n/2)%59, "S"},
+		}
+		date, tm := "", ""
+		for i, p := range parts {
+			if !p.on {
+				continue
+			}
+			if i < 3 {
+				date += fmt.Sprintf("%d%s", p.val, p.suf)
+			} else {
+				tm += fmt.Sprintf("%d%s", p.val, p.suf)
+			}
+		}
+		if date == "" && tm == "" {
+			tm = "5S"
+		}
+		d := "P" + date
+		if tm != "" {
+			d += "T" + tm
+		}
+		if n%9 == 4 {
+			d = "-" + d
+		}
+		return d
 	case "xsd:anyURI":
 		return g.id()
 	case "rdf:langString":
